@@ -357,10 +357,12 @@ def sibling_nodes():
     return out
 
 
-def sibling_queries(propset, variants):
+def sibling_queries(propset, variants, roots=(1, 2)):
     from . import shapes
     qs = []
     for root, node in sibling_nodes():
+        if root not in roots:
+            continue
         first = node.children[0]
         plans_ = {"skip": {id(first): "skip"}, "raw": {id(first): "raw"}, "tw": {id(first): "tw"}, "full": {}}
         for v in variants:
@@ -532,6 +534,8 @@ def plan_C03(tier):
                     qs.append(bigbuf_query(3, root, kind, L))
     else:
         qs += [bigbuf_query(3, 2, "S", 128), bigbuf_query(3, 1, "B", 128)]
+    # container siblings: state left at a level by the first must not disturb the second (object roots cost ~300 s each: thorough)
+    qs += sibling_queries(3, ("full",), roots=(2,) if tier == "quick" else (1, 2))
     qs += shape_variant_queries(3, 1, 6 if tier == "quick" else 8, variants=("full",), scalars=("T", "S1"), witness_every=4)
     qs += shape_variant_queries(3, 2, 5 if tier == "quick" else 7, variants=("full",), scalars=("T", "S1"), witness_every=4)
     qs += shape_variant_queries(3, 2, 4 if tier == "quick" else 5, variants=("full",), scalars=("B1", "D"), witness_every=4)
@@ -807,6 +811,7 @@ def plan_C10(tier):
         qs += [bigbuf_query(10, 2, "S", 128), bigbuf_query(10, 1, "B", 128), bigbuf_query(10, 2, "S", 127)]
     # any length / width: one decoded token (claimed-size buffer) re-encoded into a 9-byte writer buffer: header bytes and total size
     qs += [biglen_query(2, transcribe=True), biglen_query(1, transcribe=True)]
+    qs += sibling_queries(10, ("full",))
     qs += shape_variant_queries(10, 1, 6 if tier == "quick" else 8, variants=("full",), scalars=("T", "S1"), witness_every=4)
     qs += shape_variant_queries(10, 2, 5 if tier == "quick" else 7, variants=("full",), scalars=("T", "S1"), witness_every=4)
     qs += shape_variant_queries(10, 2, 4 if tier == "quick" else 5, variants=("full",), scalars=("B1", "D"), witness_every=4)
@@ -1663,6 +1668,10 @@ def plan_C02_full(tier):
         qs.append(q)
     qs.append(leaf_query("parse_integer"))
     qs += [biglen_query(1), biglen_query(2), biglen_query(1, window=True)]
+    # container siblings [X,Y,T], {a:X,b:Y,c:T}, [X,T,Y] (what closing X leaves behind at its level must not disturb Y:
+    # name-order state, empty names): verify == reference, names symbolic
+    for root, node in sibling_nodes():
+        qs.append(shape_doc_query("C02", 1, node, root, name="sib"))
     # truncated tokens: type byte concrete, k payload bytes (k < full width) symbolic, then the END: must be rejected
     for tb, width, label in ((0x46, 8, "double"), (0x13, 8, "int64"), (0x12, 4, "int32"), (0x11, 2, "int16"), (0x16, 4, "strlen32"), (0x15, 2, "strlen16"),
                              (0x1a, 4, "byteslen32"), (0x19, 2, "byteslen16"), (0x17, 8, "reserved17"), (0x1b, 8, "reserved1b")):
